@@ -11,6 +11,7 @@ Definition obs_of (x : rout) : robs :=
   match x with
   | RStored p => (0, p, [p]) | RNothing => (1, 0, []) | RNoPartitions => (2, 0, [])
   | RNotFound p => (3, p, []) | RTooMany => (4, 0, []) | ROk => (5, 0, [])
+  | RFull => (6, 0, []) | RRestarted => (7, 0, []) | RPurged => (8, 0, [])
   end.
 
 Lemma list_eqb_refl l : list_eqb l l = true.
@@ -57,7 +58,7 @@ Proof.
   intros (HP & HI & HK & HL).
   assert (Hpc : nlen (m_parts m) = pcount t) by (unfold pcount; rewrite HP; reflexivity).
   pose proof mp_bound as HB. destruct HI as [Hcur Hmax].
-  destruct o as [p msgs | n | n].
+  destruct o as [p msgs | n | n | | | p msgs].
   - (* Send *)
     unfold rmon_step, rstep. rewrite Hpc.
     destruct (N.eqb_spec (pcount t) 0) as [E0|E0].
@@ -129,6 +130,17 @@ Proof.
       unfold R. cbn [m_parts m_last m_keys r_parts]. rewrite HP. split; [reflexivity|]. split.
       * unfold rinv, pcount, nlen. cbn [r_cur r_parts]. rewrite firstn_length. unfold pcount, nlen in Hmax. split; [exact Hcur|lia].
       * split; [exact HK|]. intros q Hq. discriminate Hq.
+  - (* Restart *)
+    cbn [rmon_step rstep snd fst obs_of]. change (7 =? 7) with true. cbn iota. eexists; split; [reflexivity|].
+    unfold R. cbn [m_parts m_last m_keys r_parts]. split; [exact HP|]. split; [unfold rinv, pcount in *; cbn [r_cur r_parts]; split; [lia | exact Hmax]|].
+    split; [exact HK|]. intros q Hq. discriminate Hq.
+  - (* Purge *)
+    cbn [rmon_step rstep snd fst obs_of]. change (8 =? 8) with true. cbn iota. eexists; split; [reflexivity|].
+    assert (Epc : pcount {| r_cur := r_cur t; r_parts := map (fun _ : list N => []) (r_parts t) |} = pcount t) by (unfold pcount, nlen; cbn [r_parts]; rewrite map_length; reflexivity).
+    unfold R. cbn [m_parts m_last m_keys]. rewrite HP. split; [reflexivity|]. split; [unfold rinv; rewrite Epc; cbn [r_cur]; split; assumption|].
+    split; [exact HK|]. intros q Hq Hne. rewrite Epc in *. cbn [r_cur]. apply HL; assumption.
+  - (* a send refused because the topic is full *)
+    cbn [rmon_step rstep snd fst obs_of]. change (6 =? 6) with true. rewrite list_eqb_refl. cbn [andb]. eexists; split; [reflexivity|]. repeat split; assumption.
 Qed.
 
 Lemma rmon_run_model ops : forall t m i,
